@@ -28,14 +28,16 @@ def OwnOps (ops : List Op) : Prop :=
 variable {α : Type} [Zero α]
 
 /-- the metadata a reload shows for one field, as (id, value) pairs -/
-def fieldView (parse : String → Cell) (d : Disk α) (field : String) : Option (List (Cell × Cell)) :=
-  (metadataView parse d.files).lookup field
+def fieldView (parse : String → Cell) (fnum : Nat → Option Int) (d : Disk α) (field : String) :
+    Option (List (Cell × Cell)) :=
+  (metadataView parse fnum d.files).lookup field
 
 /-- what ONE file says about a field: nothing (`none`) when the file is `cluster_info.*`, is unreadable, or has
 no row giving the field a value next to a `cluster_id` -/
-def fileField (parse : String → Cell) (field : String) (p : FName × File) : Option (List (Cell × Cell)) :=
+def fileField (parse : String → Cell) (fnum : Nat → Option Int) (field : String) (p : FName × File) :
+    Option (List (Cell × Cell)) :=
   if p.1.1 == "cluster_info" then none else
-  (loadMetadata parse p.2).bind fun fields => fields.reverse.lookup field
+  (loadMetadata parse fnum p.2).bind fun fields => fields.reverse.lookup field
 
 /-- after a `save_metadata(field, …)` the rest of the history leaves that file alone: no later save of the same
 field (that would be the LAST save) and no foreign write to `cluster_<field>.tsv` itself (the property speaks of
@@ -47,8 +49,10 @@ def KeepsSaved (field : String) (post : List Op) : Prop :=
     | .writeFile s _ => s ≠ ("cluster_" ++ field, true)
     | _ => True
 
-/-- the fixed part of a dataset in scope: what `load_model` requires of the files a history never writes -/
+/-- the fixed part of a dataset in scope of the subset-store theorems: what `load_model` requires of the files a
+history never writes, and a raw recording (without one nothing is exported, `export_needs_raw`) -/
 structure FixedOK (nch : Nat) (fx : Fixed α) : Prop where
+  raw : fx.hasRaw = true
   rect : C03.Rect fx.raw nch
   tile : PhyVerif.C16.intervalsTile fx.raw.length fx.chunks = true      -- C16 theorems
   sorted : fx.spikeSamples.Pairwise (· ≤ ·)                             -- the loader rejects non-monotone times (C04)
@@ -64,5 +68,12 @@ def SelOK (fx : Fixed α) (ops : List Op) : Prop :=
   ∀ op ∈ ops, match op with
     | .saveSubset sel _ => sel.Pairwise (· < ·) ∧ ∀ i ∈ sel, i < fx.spikeSamples.length
     | _ => True
+
+/-- the subset files a history may START with: none, or what an in-scope export of an earlier session on the same
+dataset wrote (every session of phy after the first finds such files) -/
+def SubsetFromExport (scale : α → α) (fx : Fixed α) (sub : Option (C03.SubsetFiles α)) : Prop :=
+  sub = none ∨ ∃ sel maxN, sel.Pairwise (· < ·) ∧ (∀ i ∈ sel, i < fx.spikeSamples.length) ∧
+    sub = some (C03.saveSubset scale fx.raw fx.chunks fx.spikeSamples fx.spikeTemplates fx.orders sel
+      fx.nsw (C03.subsetWidth maxN fx.nClosest))
 
 end PhyVerif.C10
